@@ -63,6 +63,14 @@ def plan(tier, seed):
         sc.append(("star", n, 128, 0, 0))
         sc.append(("ring+skip2", n, 128, 0, 0))
         sc.append(("ring", n, 128, 2 * n, 0))
+    # more shapes: binary tree of adoptions over the chain, ring of 8-cliques, two objects
+    # with a huge multiplicity, a long tail feeding a small ring is the chain itself
+    for n in ([4000, 16000, 64000] + ([256000] if tier == "thorough" else [])):
+        sc.append(("tree", n, 128, 0, 0))
+        sc.append(("cliques", n, 128, 0, 0))
+        sc.append(("tail", n, 128, 0, 0))
+    for m in ([10000, 100000] + ([1000000] if tier == "thorough" else [])):
+        sc.append(("multi", 4, 128, m, 0))
     # odd sizes drawn from the seed
     for _ in range(6 if tier == "quick" else 30):
         sc.append((rng.choice(["ring", "ring+self"]), rng.randrange(1, 50000), rng.choice(stacks), rng.randrange(0, 20000), rng.choice([0, 0, 2, 7])))
@@ -103,7 +111,7 @@ def check_c15(tier, seed, jobs):
         if "error" in j:
             continue
         key = None
-        if j["shape"] in ("star", "ring+skip2") and j["n"] in (4000, 16000, 64000, 256000):
+        if j["shape"] in ("star", "ring+skip2", "tree", "cliques", "tail") and j["n"] in (4000, 16000, 64000, 256000):
             key = j["shape"]
         elif j["shape"] == "ring" and j.get("chords", 0) == 2 * j["n"] and j["n"] in (4000, 16000, 64000, 256000):
             key = "ring+2N-chords"
